@@ -103,4 +103,41 @@ def accuInv (periods : List Period) (h accu : Nat) : Prop :=
   ∀ p, currentPeriod periods h = some p → p.alloc ≠ 0 → h ≠ p.start →
     accu ≤ share p * ((h - p.start - 1) % p.mod)
 
+/-! ### histories in which the reward-period list is edited while periods run -/
+
+/-- per-block clause over a trace of blocks -/
+def traceBlocksOK : List BlockObs → Bool
+  | [] => true
+  | (h, cur, m) :: tr => rewardsBlockOK cur h m && traceBlocksOK tr
+
+/-- what was created in the blocks whose current period was `q` -/
+def sumFor (q : Period) : List BlockObs → Nat
+  | [] => 0
+  | (_, cur, m) :: tr => (if cur = some q then m else 0) + sumFor q tr
+
+/-- every period list of the history is in the envelope -/
+def stepsEnv : List Period → List Step → Bool
+  | ps, [] => inEnvelope ps
+  | _, .edit ps' :: r => stepsEnv ps' r
+  | ps, .block _ :: r => inEnvelope ps && stepsEnv ps r
+
+/-- Clean switches: whenever a block's current period `q` (allocation ≠ 0) is not in its first
+    block, the previous block had the same current period.  I.e. a period only ever takes over at
+    its own RewardPeriodStartBlock — by following its predecessor, after a gap, by replacing a
+    running period through an edit, or by overtaking an overlapping period listed after it.
+    (`prev` = current period of the previous block, `none` before the first block.)  What this
+    excludes — a period becoming current in mid-flight — is the residual case of `overlap_residual`. -/
+def cleanSwitches : Option Period → List Period → Nat → List Step → Bool
+  | _, _, _, [] => true
+  | prev, _, h, .edit ps' :: r => cleanSwitches prev ps' h r
+  | prev, ps, h, .block _ :: r =>
+      (match currentPeriod ps h with
+       | none => true
+       | some q => decide (q.alloc = 0) || decide (h = q.start) || decide (prev = some q)) &&
+      cleanSwitches (currentPeriod ps h) ps (h + 1) r
+
+/-- accumulator invariant relative to the previous block's current period -/
+def accuOK (prev : Option Period) (h accu : Nat) : Prop :=
+  ∀ q, prev = some q → q.alloc ≠ 0 → h ≠ q.start → accu ≤ share q * ((h - q.start - 1) % q.mod)
+
 end Sif.Spec.C20
